@@ -13,7 +13,14 @@ model `PV.Model.Res` (allocation / acquisition skeletons of the library function
 F10 / F12 applied); the tie to the C code is the exhaustive fault enumeration of `tools/props/c18.py`.
 
 "For each modelled function" is quantification over the call tables `ctorRun`, `mutRun`, `deriveRun`,
-`dtorRun` (one entry per library function, see `PV.Model.Res.Calls`) plus the library-state functions. -/
+`dtorRun` (one entry per library function, see `PV.Model.Res.Calls`) plus the library-state functions.
+
+Gap closing (coverage audit of the correspondence): the tables now also hold `p_realloc` (`MutK.strRealloc`),
+`p_mem_munmap` with a failing `munmap` (`MutK.mmapFree`), `p_libsys_init_full`, invalid-argument calls of 37 entry
+points; the modelled functions gained the error exits behind a failing `fstat` (existing segment), `getsockopt`
+(`p_socket_new_from_fd`, `p_socket_accept`), `pthread_attr_init` / `pthread_attr_setdetachstate`, and the name copy of
+`p_uthread_set_name_internal`.  The generic theorems below cover them as they cover every entry; `realloc_keeps_or_moves`,
+`munmap_failure_keeps_mapping`, `clean_fail_thread_start`, `thread_name_copy_released` state what is specific to them. -/
 namespace PV.Props.C18
 open PV.Res List
 
@@ -127,9 +134,9 @@ theorem accounts_lib_shutdown (l : LibO) : Accounts l.foot (libShutdown l) LibO.
   accounts_of_spec ((libShutdown_spec l).toG [] (fun _ => []) (by simp))
 theorem safe_uthread_current (l : LibO) : Safe l.foot (curThread l) :=
   safe_of_spec ((curThread_spec l).toG [] (fun _ => []) (by simp))
-theorem safe_thread_run (l : LibO) (t : Option TlsO) (b : Bool) : Safe (l.foot ++ optTls t) (threadRun l t b) :=
+theorem safe_thread_run (l : LibO) (t : Option TlsO) (b : ThrOpt) : Safe (l.foot ++ optTls t) (threadRun l t b) :=
   safe_of_spec ((threadRun_spec l t b).toG [] (fun _ => []) (by simp))
-theorem accounts_thread_run (l : LibO) (t : Option TlsO) (b : Bool) :
+theorem accounts_thread_run (l : LibO) (t : Option TlsO) (b : ThrOpt) :
     Accounts (l.foot ++ optTls t) (threadRun l t b) (fun r => optL ThreadO.foot r.1 ++ r.2.1.foot ++ optTls r.2.2) :=
   accounts_of_spec ((threadRun_spec l t b).toG [] (fun _ => []) (by simp))
 
@@ -211,6 +218,71 @@ example : ∃ t s', (htNew).run (fun _ => false) {} = .ok (some t) s' ∧ s'.hel
 example : ∃ s', (htNew).run (fun i => i == 2) {} = .ok none s' ∧ s'.held = [] := ⟨_, rfl, by decide⟩
 example : (match (shmNew 0 1024 (some none)).run (fun i => i == 8) {} with
     | .ok (none, some (some _)) s => decide (s.held.length = 2 ∧ s.names = [])
+    | _ => false) = true := by decide
+
+/-! ## gap closing (coverage audit): entry points and error exits added to the model -/
+
+/-- `p_realloc` of a block of the caller: when the allocator refuses (class `'F'`) the old block is still the
+    caller's — same block, nothing else changed hands; when it succeeds the old block has become the new one and
+    exactly one block is held for it (no copy is left behind) -/
+theorem realloc_keeps_or_moves (b : Blk) (f : Nat → Bool) (s : St) (fr : List R) (c : Char) (b' : Blk) (s' : St)
+    (hs : s.held ~ [.blk b] ++ fr) (hr : (strRealloc b).run f s = .ok (c, b') s') :
+    s'.held ~ [.blk b'] ++ fr ∧ (c = 'F' → b' = b ∧ s'.held = s.held) := by
+  refine ⟨accounts_of_spec ((strRealloc_spec b).toG [] (fun _ => []) (by simp)) f s fr _ s' hs hr, ?_⟩
+  intro hc
+  have hw : wp (strRealloc b) f s (fun r s' => r.1 = 'F' → r.2 = b ∧ s'.held = s.held) := by
+    have hm : R.blk b ∈ s.held := hs.symm.subset (by simp)
+    simp only [strRealloc, wp_bind, wp_malloc]
+    split
+    · simp
+    · simp [hm]
+  unfold wp at hw
+  rw [hr] at hw
+  exact hw hc
+
+/-- `p_mem_munmap`: a failing `munmap` is reported and the mapping is still held by the caller (it is neither lost
+    nor counted as released); a successful one releases exactly the mapping -/
+theorem munmap_failure_keeps_mapping (i len : Nat) (e : EP) :
+    Accounts (.map i len :: e.foot) (mmapUnmap i len e) (fun r => (if r.1 then [] else [.map i len]) ++ r.2.foot) :=
+  accounts_of_spec ((mmapUnmap_spec i len e).toG [] (fun _ => []) (by simp))
+
+/-- `p_uthread_create` whose native start fails (`pthread_attr_init`, `pthread_attr_setdetachstate` or
+    `pthread_create` — whichever is scripted to fail, whatever allocation fails): no thread object is returned and
+    exactly the library's state and the caller's key are held afterwards — the structure is released on every exit -/
+theorem clean_fail_thread_start (l : LibO) (t : Option TlsO) (o : ThrOpt) (f : Nat → Bool) (s : St) (fr : List R)
+    (l' : LibO) (t' : Option TlsO) (s' : St) (hs : s.held ~ (l.foot ++ optTls t) ++ fr)
+    (hr : (threadRun l t o).run f s = .ok (none, l', t') s') : s'.held ~ l'.foot ++ optTls t' ++ fr := by
+  simpa [optL] using accounts_thread_run l t o f s fr _ s' hs hr
+
+/-- the thread with a long name: the truncated copy `p_uthread_set_name_internal` works on is released again,
+    whether or not it could be allocated -/
+theorem thread_name_copy_released (long : Bool) (nm : Option Blk) : Accounts [] (threadSetName long nm) (fun _ => []) :=
+  accounts_of_spec ((threadSetName_spec long nm).toG [] (fun _ => []) (by simp))
+
+/-- non-vacuity: the refused reallocation keeps block 1; the granted one holds block 2 only -/
+example : (match (strRealloc 1).run (fun i => i == 2) { held := [.blk 1], next := 1 } with
+    | .ok (c, b') s => decide (c = 'F' ∧ b' = 1 ∧ s.held = [.blk 1]) | .fault _ => false) = true := by decide
+example : (match (strRealloc 1).run (fun _ => false) { held := [.blk 1], next := 1 } with
+    | .ok (c, b') s => decide (c = 'S' ∧ b' = 2 ∧ s.held = [.blk 2]) | .fault _ => false) = true := by decide
+/-- … a scripted `munmap` failure leaves mapping 1 held and hands back an error (two blocks) -/
+example : (match (mmapUnmap 1 4096 (some none)).run (fun _ => false) { held := [.map 1 4096], sysfail := ["munmap"] } with
+    | .ok (ok, e') s => decide (ok = false ∧ e'.isSome ∧ s.held.length = 3 ∧ R.map 1 4096 ∈ s.held) | .fault _ => false) = true := by decide
+/-- … each of the three native calls of a thread start can be the failing one: nothing is held afterwards -/
+example : ["pthread_attr_init", "pthread_attr_setdetachstate", "pthread_create"].all (fun nm =>
+    match (threadRun {} none ⟨true, true⟩).run (fun _ => false) { sysfail := [nm] } with
+    | .ok (none, _, _) s => decide (s.held = [] ∧ s.sysfail = []) | _ => false) = true := by decide
+/-- … and a started thread with a long name allocates structure, name and the truncated copy (three attempts), keeping two -/
+example : (match (threadRun {} none ⟨false, true⟩).run (fun _ => false) {} with
+    | .ok (some _, _, _) s => decide (s.next = 3 ∧ s.held.length = 2) | _ => false) = true := by decide
+/-- … `fstat` failing on an existing segment: the second handle fails, its descriptor is closed, both names stay
+    (they belong to the first handle), nothing but the first handle and the error is held -/
+example : (match (runCalls [.glob .libInit none, .ctor (.shmNew 0 0) 0 none, .glob (.sysfail "fstat") none,
+      .ctor (.shmNew 0 0) 1 (some 9)] {}).run (fun _ => false) {} with
+    | .ok (rs, _) s => decide (rs = ['S', 'S', 'S', 'F'] ∧ s.fds = [] ∧ s.closed = [2, 1] ∧ s.names.length = 2 ∧ s.maps.length = 2)
+    | .fault _ => false) = true := by decide
+/-- … `getsockopt` failing in `p_socket_new_from_fd`: structure released, the caller closes its descriptor -/
+example : (match (sockFromFd (some none)).run (fun _ => false) { sysfail := ["getsockopt"] } with
+    | .ok (none, some (some _)) s => decide (s.fds = [] ∧ s.closed = [1] ∧ s.live.length = 2)
     | _ => false) = true := by decide
 
 /-! ## the old behaviour (findings): what the repaired functions replaced
